@@ -364,5 +364,118 @@ def check(repo, tier):
             which = f'{MOD}._contraction_step_dPsi_u' if rev else f'{MOD}._contraction_step_LPsi_u'
             run.add(F_(f'{MOD}._reduced_matrix_tgedmd', 'D2', f'reduced matrix ({"reversible" if rev else "non-reversible"}, {"reweighted" if rew else "unweighted"})', f'{scen}: ' + '; '.join(bad[:2]) +
                        f' (contraction steps in {which})'))
+    hosvd_driver_rule(run, repo, tier)
     run.floor('obligations decided', run.obligations, 20)
     return run
+
+
+def hosvd_driver_rule(run, repo, tier):
+    """D3: the driver amuset_hosvd, interpreted over the Layer-2 array domain with _reduced_matrix_tgedmd replaced by a recorder: what reaches the decompositions and
+    the reduced matrix (the formulas inside the reduced matrix are D2)."""
+    from . import arr as A
+    from . import l2, l2rules
+    from .arr import Arr
+    from .p_c15 import BasisFn
+    run.rule('D3', 'the HOSVD driver: every mode is decomposed by utils.truncated_svd with the caller\'s threshold, max_rank and rel_threshold ("the same singular-value cut"); the reduced '
+             'matrix receives the orthonormal cores of all modes, diag(1/s) and the transposed right factor V of the LAST decomposition -- unmodified -- and the caller\'s data, '
+             'diffusion, drift and weights; the weights enter the last mode only')
+    entry = f'{MOD}.amuset_hosvd'
+    THR = 3.5e-3
+    for p, rew, rev, rel in itertools.product((2, 3) if tier == 'thorough' else (2,), (False, True), (False, True), (False, True)):
+        if tier == 'quick' and rew and rev and rel:
+            continue
+        scen = f'amuset_hosvd({p} modes, {"reweighted" if rew else "unweighted"}, {"reversible" if rev else "with drift"}, rel_threshold={rel})'
+        holder = {}
+
+        def fake_reduced(it, u, s_inv, V, ranks, x, basis_list, sigma, b=None, reweight=None, output_freq=None):
+            holder['sc'].rec = dict(u=u, s_inv=s_inv, V=V, ranks=ranks, x=x, basis=basis_list, sigma=sigma, b=b, reweight=reweight)
+            n = s_inv.shape[0] if isinstance(s_inv, Arr) else 1
+            return Arr([n, n], None, 'real', None, {'role': 'M'}, 'reduced_matrix')
+
+        def nearest_factors(a):
+            """the decomposition factors an array is computed from, not looking through them: {(uid, role)}"""
+            out, seen, todo = set(), set(), [a]
+            while todo:
+                x_ = todo.pop()
+                if not isinstance(x_, Arr) or id(x_) in seen:
+                    continue
+                seen.add(id(x_))
+                pv_ = x_.tags.get('prov')
+                if isinstance(pv_, dict) and 'svd' in pv_ and pv_.get('role') in ('u', 's', 'v'):
+                    out.add((pv_['svd'], pv_['role']))
+                    continue
+                todo.extend(x_.parents)
+                todo.extend(x_.buf.inputs)
+            return out
+
+        def body(sc):
+            holder['sc'] = sc
+            sc.rec = {}
+            m, d, d2 = sc.atom('m'), sc.atom('d'), sc.atom('dn')
+            data = Arr([d, m], None, 'real', None, {'role': 'data'}, 'data_matrix')
+            sigma = Arr([d, d2, m], None, 'real', None, {'role': 'sigma'}, 'sigma')
+            b = None if rev else Arr([d, m], None, 'real', None, {'role': 'b'}, 'b')
+            w = Arr([m], None, 'real', None, {'role': 'w'}, 'reweight') if rew else None
+            basis = [[BasisFn(i, k) for k in range(2 + (i % 2))] for i in range(p)]
+            sc.inputs = (data, sigma, b, w, basis)
+            sc.rho = sc.atom('rho', free=True)
+            return sc.call(entry, data, basis, sigma, b=b, reweight=w, threshold=THR, max_rank=sc.rho, return_option='eigenvectors', rel_threshold=rel)
+        for ch, sc, res, exc in l2.explore(repo, body, typed=False, intercept={f'{MOD}._reduced_matrix_tgedmd': fake_reduced}):
+            fn = repo.fn(entry)
+            if exc is not None:
+                run.oblige('D3', (entry, scen), False)
+                l2rules.raised_finding(run, 'C19', 'D3', repo, entry, scen, exc)
+                continue
+            data, sigma, b, w, basis = sc.inputs
+            bad = []
+            calls = [e for e in sc.events('call') if e['callee'].name == 'truncated_svd']
+            if not calls:
+                raise AnalysisError(f'{scen}: utils.truncated_svd is not called: the way the modes are decomposed is not one this rule recognises')
+            names = list(calls[0]['callee'].params)
+            for e in calls:
+                argd = dict(zip(names, e['args']))
+                argd.update(e['kwargs'])
+                thr_, cap_, rel_ = argd.get('threshold', 0), argd.get('max_rank', math.inf), argd.get('rel_truncation', True)
+                if thr_ != THR or not (cap_ is sc.rho or cap_ == sc.rho) or rel_ is not rel:
+                    bad.append(f'truncated_svd is called with threshold={thr_}, max_rank={cap_}, rel_truncation={rel_} instead of the caller\'s {THR}, {sc.rho}, {rel}')
+            if len(calls) != p:
+                bad.append(f'{len(calls)} decompositions for {p} modes')
+            svds = sc.events('svd')
+            rec = sc.rec
+            if not rec:
+                raise AnalysisError(f'{scen}: _reduced_matrix_tgedmd is not called')
+            if svds and not bad:
+                last = svds[-1]
+                # V: the transposed right factor of the last decomposition, never written to
+                V = rec['V']
+                root, hops, chain = V, 0, [V]
+                while isinstance(root, Arr) and root.origin in ('transpose', 'copy', 'getitem', 'conj') and root.parents and hops < 6:
+                    root, hops = root.parents[0], hops + 1
+                    chain.append(root)
+                pv = root.tags.get('prov') if isinstance(root, Arr) else None
+                if not (isinstance(pv, dict) and pv.get('svd') == last['uid'] and pv.get('role') == 'v'):
+                    (bad if isinstance(pv, dict) and 'svd' in pv else bad).append(f'V handed to the reduced matrix is {getattr(root, "origin", root)!s}, not the right factor of the last decomposition')
+                else:
+                    if any(isinstance(c_, Arr) and (c_.buf.writes or c_.tags.get('stores') or c_.tags.get('inplace_ops')) for c_ in chain):
+                        bad.append('the right factor V of the last decomposition is modified in place before it is handed to the reduced matrix (it is no longer an isometry)')
+                    if not (isinstance(V, Arr) and V.ndim == 2 and A.sz_eq(V.shape[0], data.shape[1])):
+                        bad.append(f'V has shape {getattr(V, "shape", None)}: its rows are not the snapshots')
+                if nearest_factors(rec['s_inv']) != {(last['uid'], 's')}:
+                    bad.append('s_inv is not computed from the singular values of the last decomposition (only)')
+                for name, want in (('x', data), ('sigma', sigma), ('b', b), ('reweight', w)):
+                    if rec[name] is not want:
+                        bad.append(f'the reduced matrix receives {rec[name]!r:.60} as `{name}` instead of the caller\'s argument')
+                u = rec['u']
+                if not (isinstance(u, list) and len(u) == p):
+                    bad.append(f'{len(u) if isinstance(u, list) else "?"} orthonormal cores for {p} modes')
+                else:
+                    for k, c in enumerate(u):
+                        anc_k = A.ancestors([c])
+                        if nearest_factors(c) != {(svds[k]['uid'], 'u')}:
+                            bad.append(f'orthonormal core {k} is not the left factor of the decomposition of mode {k}')
+                        # the weights enter the last mode only
+                        if rew and any(a_ is w for a_ in anc_k.values()) != (k == p - 1):
+                            bad.append(f'the weights {"do not enter" if k == p - 1 else "enter"} the core of mode {k}')
+            run.oblige('D3', (entry, scen, tuple(ch)), not bad, sample={'rule': 'D3', 'scenario': scen, 'decompositions': len(calls)} if not rew and not rev and not rel else None)
+            if bad:
+                run.add(Finding('C19', 'D3', fn.where, 'HOSVD driver', f'{scen}: ' + '; '.join(sorted(set(bad))[:3]), fn.file, fn.node.lineno))
